@@ -10,6 +10,8 @@ use trv_core::inner::{GatedInner, Mode, Req};
 use trv_core::svcx::{self, Action, Counts, Opts, Scenario, Viol};
 use trv_core::world::{drive_ready, Outcome, Phase, World};
 
+mod threads;
+
 trv_core::install_clock_seam!();
 
 type Svc = tower_resilience_ratelimiter::RateLimiter<GatedInner>;
@@ -367,6 +369,25 @@ fn main() {
         }
     };
     if let Some(path) = cli.replay {
+        // a recorded thread schedule (engine B part)?
+        let v = trv_core::load_replay(&path);
+        if let Some(ch) = v["history"]["thread_schedule"].as_array() {
+            let choices: Vec<usize> = ch.iter().filter_map(|x| x.as_u64().map(|u| u as usize)).collect();
+            match threads::replay(prop, v["config"].as_str().unwrap_or(""), &choices, v["kind"].as_str().unwrap_or("")) {
+                Some(true) => {
+                    println!("VIOLATION property={prop} replay={path}");
+                    std::process::exit(1);
+                }
+                Some(false) => {
+                    println!("replay: the recorded violation does not occur on the current tree");
+                    std::process::exit(0);
+                }
+                None => {
+                    eprintln!("MACHINERY no thread configuration with that label");
+                    std::process::exit(2);
+                }
+            }
+        }
         let mut c = configs(prop, Tier::Quick);
         c.extend(configs(prop, Tier::Thorough));
         svcx::replay_main(prop, &path, c);
@@ -390,5 +411,10 @@ fn main() {
             svcx::validate_abstraction(&cfg, 7, &ex.fingerprints, ex.depth_completed, &mut rep);
         }
     }
+    // thread level: all interleavings of the critical sections of concurrent acquisitions
+    threads::run(prop, tier, &mut rep);
+    rep.require_witness("thread_schedules_with_preemption");
+    rep.require_witness("thread_config_with_several_outcomes");
+    rep.assumptions.push("thread level (engine B): scheduling points are the lock acquisitions of the limiter's mutex (repo feature verif-hooks); sequentially consistent memory; timeout 0 and an hour-long period, so every call is decided in its first poll".into());
     trv_core::finish(rep);
 }
